@@ -13,8 +13,12 @@ import (
 	"go/token"
 	"os"
 	"path/filepath"
+	"go/importer"
+	"go/types"
 	"sort"
 	"strings"
+
+	"golang.org/x/tools/go/packages"
 )
 
 type mut struct {
@@ -37,7 +41,12 @@ var swaps = map[token.Token][]token.Token{
 func main() {
 	repo := flag.String("repo", "/repo", "subject")
 	mode := flag.String("mode", "token", "token: operator / statement mutations; sibling: an identifier replaced by its sibling (copy-paste slips)")
+	check := flag.Bool("typecheck", false, "emit only mutations after which the package still type-checks (go/types, in process)")
 	flag.Parse()
+	var tc *typeChecker
+	if *check {
+		tc = newTypeChecker(*repo)
+	}
 	var files []string
 	for _, d := range []string{"", "post"} {
 		m, _ := filepath.Glob(filepath.Join(*repo, d, "*.go"))
@@ -78,6 +87,9 @@ func main() {
 			}
 			emit := func(kind string, s, e int, repl string) {
 				if (*mode == "sibling") != strings.HasPrefix(kind, "sibling:") {
+					return
+				}
+				if tc != nil && !tc.ok(path, src, s, e, repl) {
 					return
 				}
 				_ = enc.Encode(mut{File: rel, Line: lineOf(src, s), Func: name, Kind: kind, Start: s, End: e, New: repl, Old: string(src[s:e])})
@@ -249,3 +261,67 @@ func lineOf(src []byte, off int) int {
 }
 
 var _ = fmt.Sprint
+
+// typeChecker re-checks one package of the subject with one file replaced (dependencies from the loaded program).
+type typeChecker struct {
+	pkgs map[string]*packages.Package // by directory
+	imp  map[string]*types.Package
+}
+
+func newTypeChecker(repo string) *typeChecker {
+	cfg := &packages.Config{Mode: packages.NeedName | packages.NeedFiles | packages.NeedSyntax | packages.NeedTypes | packages.NeedImports | packages.NeedDeps | packages.NeedCompiledGoFiles, Dir: repo,
+		Env: append(os.Environ(), "GOFLAGS=-mod=mod", "GOPROXY=off", "GOSUMDB=off", "GOTOOLCHAIN=local", "GOWORK=off")}
+	ps, err := packages.Load(cfg, "./...")
+	if err != nil || packages.PrintErrors(ps) > 0 {
+		panic(fmt.Sprint("load: ", err))
+	}
+	t := &typeChecker{pkgs: map[string]*packages.Package{}, imp: map[string]*types.Package{}}
+	packages.Visit(ps, nil, func(p *packages.Package) {
+		t.imp[p.PkgPath] = p.Types
+	})
+	for _, p := range ps {
+		if len(p.GoFiles) > 0 {
+			t.pkgs[filepath.Dir(p.GoFiles[0])] = p
+		}
+	}
+	return t
+}
+
+type mapImporter map[string]*types.Package
+
+func (m mapImporter) Import(path string) (*types.Package, error) {
+	if p, ok := m[path]; ok {
+		return p, nil
+	}
+	return importer.Default().Import(path)
+}
+
+func (t *typeChecker) ok(path string, src []byte, s, e int, repl string) bool {
+	p := t.pkgs[filepath.Dir(path)]
+	if p == nil {
+		return true
+	}
+	fset := token.NewFileSet()
+	var files []*ast.File
+	for _, gf := range p.CompiledGoFiles {
+		var content []byte
+		if gf == path {
+			content = append(append(append([]byte{}, src[:s]...), repl...), src[e:]...)
+		} else {
+			b, err := os.ReadFile(gf)
+			if err != nil {
+				return false
+			}
+			content = b
+		}
+		f, err := parser.ParseFile(fset, gf, content, 0)
+		if err != nil {
+			return false
+		}
+		files = append(files, f)
+	}
+	bad := false
+	cfg := types.Config{Importer: mapImporter(t.imp), Error: func(error) { bad = true }}
+	_, _ = cfg.Check(p.PkgPath, fset, files, nil)
+	return !bad
+}
